@@ -54,7 +54,7 @@ theorem C10_order_ok {l : LState} (he : l.st.events = []) (op : LOp) (o : Obs) (
   rw [sstepObs_op]
   cases sop with
   | inc p =>
-    obtain ⟨outs, h1, h2⟩ := shapeW_handleIncoming l.st p
+    obtain ⟨outs, h1, h2, _⟩ := shape_handleIncoming l.st p
     rw [he, List.nil_append] at h1
     simp only [(sstepObs_inc l.st p).1, (sstepObs_inc l.st p).2, h1]
     cases (handleIncoming l.st p).2 with
@@ -84,22 +84,13 @@ theorem announced_cons_incoming (p : Incoming) (outs : List Event) :
   simp [announced, isIncomingEv]
 
 /-- C10 clause 6: every written packet announced exactly once, nothing else announced -/
-theorem C10_notify_ok {l : LState} (he : l.st.events = []) (op : LOp) (o : Obs) (ho : (lstep l op).2 = some o)
-    (hn : ¬ unwrittenAnnouncement l op) : C10.notify o = true := by
+theorem C10_notify_ok {l : LState} (he : l.st.events = []) (op : LOp) (o : Obs) (ho : (lstep l op).2 = some o) :
+    C10.notify o = true := by
   obtain ⟨sop, hl, rfl⟩ := lstep_obs ho
   unfold C10.notify
   cases sop with
   | inc p =>
-    have hop : op = .inc p := by
-      cases op <;> simp only [lop?] at hl
-      · split at hl <;> simp at hl
-      · split at hl <;> simp at hl
-      · simp at hl
-      · simpa using hl
-      · simp at hl
-      · simp at hl
-    subst hop
-    obtain ⟨outs, h1, h2, h3⟩ := shape_handleIncoming l.st p hn
+    obtain ⟨outs, h1, h2, h3⟩ := shape_handleIncoming l.st p
     rw [he, List.nil_append] at h1
     simp only [(sstepObs_inc l.st p).1, (sstepObs_inc l.st p).2, h1, announced_cons_incoming]
     rcases h3 with h3 | h3
@@ -159,38 +150,46 @@ theorem C10_notify_ok {l : LState} (he : l.st.events = []) (op : LOp) (o : Obs) 
 
 /-! ### the answer table -/
 
+/-- MQTT 5: a PUBLISH with an empty topic whose alias was never registered -/
+def aliasUnknown (s : State) (q : InPub) : Prop :=
+  s.ver = .v5 ∧ ∃ a, q.alias = some a ∧ q.topicEmpty = true ∧ s.aliases.contains a = false
+
+theorem publishAlias_none_iff (s : State) (q : InPub) : publishAlias s q = none ↔ aliasUnknown s q := by
+  unfold publishAlias aliasUnknown
+  cases s.ver with
+  | v4 => simp
+  | v5 =>
+    cases q.alias with
+    | none => simp
+    | some a => cases q.topicEmpty <;> cases s.aliases.contains a <;> simp
+
 theorem handlePublish_answer (s : State) (q : InPub) :
     (handlePublish s q).2 =
-      if q.qos = 0 then .ok none
+      if publishAlias s q = none then .ok (some (.disconnect 130))
+      else if q.qos = 0 then .ok none
       else if s.manualAcks then .ok none
       else if q.qos = 1 then .ok (some (.puback q.pkid))
       else .ok (some (.pubrec q.pkid)) := by
-  have hm := (publishAlias_fields s q).2.2.1
   unfold handlePublish
-  simp only [outgoingPuback, outgoingPubrec]
-  generalize publishAlias s q = s1 at hm
-  by_cases h0 : q.qos = 0
-  · simp [h0]
-  · by_cases h1 : q.qos = 1
-    · cases hma : s.manualAcks <;> simp [h1, hm, hma]
-    · have hmem : (q.pkid ∈ s1.incomingPub) ∨ ¬ (q.pkid ∈ s1.incomingPub) := Classical.em _
-      cases hma : s.manualAcks <;> rcases hmem with hc | hc <;> simp [h0, h1, hm, hma, hc]
+  cases hal : publishAlias s q with
+  | none => simp [outgoingDisconnect]
+  | some s1 =>
+    have hm := (publishAlias_fields hal).2.2.1
+    simp only [outgoingPuback, outgoingPubrec, reduceCtorEq, if_false]
+    by_cases h0 : q.qos = 0
+    · simp [h0]
+    · by_cases h1 : q.qos = 1
+      · cases hma : s.manualAcks <;> simp [h1, hm, hma]
+      · have hmem : (q.pkid ∈ s1.incomingPub) ∨ ¬ (q.pkid ∈ s1.incomingPub) := Classical.em _
+        cases hma : s.manualAcks <;> rcases hmem with hc | hc <;> simp [h0, h1, hm, hma, hc]
 
-theorem handlePubrel_answer (s : State) (i r : Nat) (hk : s.incomingPub.contains i = true) :
-    (handlePubrel s i r).2 = if s.ver = .v5 ∧ r ≠ 0 then .ok none else .ok (some (.pubcomp i)) := by
+theorem handlePubrel_answer (s : State) (i : Nat) (hk : s.incomingPub.contains i = true) :
+    (handlePubrel s i).2 = .ok (some (.pubcomp i)) := by
   unfold handlePubrel
   rw [if_pos hk]
-  simp only
-  by_cases hv : (decide (s.ver = Version.v5) && (r != 0)) = true
-  · rw [if_pos hv]
-    have : s.ver = .v5 ∧ r ≠ 0 := by simpa using hv
-    rw [if_pos this]
-  · rw [if_neg hv]
-    have : ¬ (s.ver = .v5 ∧ r ≠ 0) := by simpa using hv
-    rw [if_neg this]
 
 /-- C10 clauses 2–4: QoS 1 → PUBACK(id), QoS 2 → PUBREC(id), release of a known id → PUBCOMP(id),
-    neither of the first two with manual acks -/
+    neither of the first two with manual acks; a protocol error → DISCONNECT -/
 theorem C10_ack_ok {l : LState} {g : Ghost} (hg : GInv0 l g) (op : LOp) (o : Obs) (ho : (lstep l op).2 = some o) :
     C10.ack g o = true := by
   obtain ⟨sop, _, rfl⟩ := lstep_obs ho
@@ -204,34 +203,29 @@ theorem C10_ack_ok {l : LState} {g : Ghost} (hg : GInv0 l g) (op : LOp) (o : Obs
       have h1 : (handleIncoming l.st (.publish q)).2 = (handlePublish (l.st.pushEv (.incoming (.publish q))) q).2 := rfl
       rw [h1, handlePublish_answer]
       have hm : (l.st.pushEv (.incoming (.publish q))).manualAcks = g.manual := hg.man.symm
+      have hpe := protocolError_iff g (l.st.pushEv (.incoming (.publish q))) q hg.ver hg.al
       rw [hm]
-      by_cases h0 : q.qos = 0
-      · simp [h0]
-      · cases hma : g.manual
-        · by_cases h1 : q.qos = 1 <;> simp [h0, h1]
+      by_cases hp : protocolError g q = true
+      · simp [hp, hpe.mp hp]
+      · have hn : ¬ publishAlias (l.st.pushEv (.incoming (.publish q))) q = none := fun h' => hp (hpe.mpr h')
+        have hp' : protocolError g q = false := by simpa using hp
+        simp only [hp', hn, if_false, Bool.false_eq_true]
+        by_cases h0 : q.qos = 0
         · simp [h0]
+        · cases hma : g.manual
+          · by_cases h1 : q.qos = 1 <;> simp [h0, h1]
+          · simp [h0]
     | pubrel i r =>
-      have h1 : (handleIncoming l.st (.pubrel i r)).2 = (handlePubrel (l.st.pushEv (.incoming (.pubrel i r))) i r).2 := rfl
+      have h1 : (handleIncoming l.st (.pubrel i r)).2 = (handlePubrel (l.st.pushEv (.incoming (.pubrel i r))) i).2 := rfl
       rw [h1]
       by_cases hk : g.inQos2.contains i = true
       · have hk' : (l.st.pushEv (.incoming (.pubrel i r))).incomingPub.contains i = true := by
           have : i ∈ l.st.incomingPub := (hg.q2 i).mp (by simpa using hk)
           simpa [State.pushEv] using this
-        rw [handlePubrel_answer _ i r hk']
-        have hv : (l.st.pushEv (.incoming (.pubrel i r))).ver = g.ver := hg.ver.symm
-        rw [hv]
-        by_cases hc : g.ver = .v5 ∧ r ≠ 0
-        · simp [hk, hc.1, hc.2]
-        · rw [if_neg hc]
-          simp only [hk, if_true]
-          have : (decide (g.ver = Version.v5) && (r != 0)) = false := by
-            simp only [Bool.and_eq_false_iff, decide_eq_false_iff_not, bne_eq_false_iff_eq, beq_iff_eq]
-            by_cases hv5 : g.ver = .v5
-            · right; exact Classical.not_not.mp (fun h => hc ⟨hv5, h⟩)
-            · left; exact hv5
-          simp [this]
+        rw [handlePubrel_answer _ i hk']
+        simp [hk]
       · simp only [hk]
-        cases (handlePubrel (l.st.pushEv (.incoming (.pubrel i r))) i r).2 <;> simp
+        cases (handlePubrel (l.st.pushEv (.incoming (.pubrel i r))) i).2 <;> simp
     | _ => cases (handleIncoming l.st _).2 <;> rfl
   | out r => cases (sstepObs l.st (.out r)).outcome <;> rfl
   | clean => cases (sstepObs l.st .clean).outcome <;> rfl
@@ -247,31 +241,27 @@ theorem lop_inc {l : LState} {op : LOp} {p : Incoming} (hl : lop? l op = some (.
   · simp at hl
   · simp at hl
 
-/-- MQTT 5: a release of a known id is answered whatever its reason — unless (#22) it carries a
-    failure reason -/
-theorem C10_relAnswered_ok {l : LState} {g : Ghost} (hg : GInv0 l g) (op : LOp) (o : Obs) (ho : (lstep l op).2 = some o)
-    (hn : ¬ releaseWithFailureReason l op) : C10.relAnswered g o = true := by
+/-- MQTT 5: a release of a known id is answered by PUBCOMP whatever its reason code -/
+theorem C10_relAnswered_ok {l : LState} {g : Ghost} (hg : GInv0 l g) (op : LOp) (o : Obs) (ho : (lstep l op).2 = some o) :
+    C10.relAnswered g o = true := by
   obtain ⟨sop, hl, rfl⟩ := lstep_obs ho
   unfold C10.relAnswered
   rw [sstepObs_op]
   cases sop with
   | inc p =>
-    have hop := lop_inc hl
-    subst hop
     cases p with
     | pubrel i r =>
       rw [(sstepObs_inc l.st _).1]
-      have hcond : (g.inQos2.contains i && decide (g.ver = Version.v5) && (r != 0)) = false := by
-        cases hc : (g.inQos2.contains i && decide (g.ver = Version.v5) && (r != 0)) with
-        | false => rfl
-        | true =>
-          exfalso; apply hn
-          simp only [Bool.and_eq_true, decide_eq_true_eq, bne_iff_ne, ne_eq] at hc
-          refine ⟨by rw [← hg.ver]; exact hc.1.2, hc.2, ?_⟩
-          have : i ∈ l.st.incomingPub := (hg.q2 i).mp (by simpa using hc.1.1)
-          simpa using this
-      have hcond' : (g.inQos2.contains i && decide (g.ver = Version.v5) && (r != 0)) = false := hcond
-      cases (handleIncoming l.st (.pubrel i r)).2 <;> simp only [hcond'] <;> rfl
+      have h1 : (handleIncoming l.st (.pubrel i r)).2 = (handlePubrel (l.st.pushEv (.incoming (.pubrel i r))) i).2 := rfl
+      rw [h1]
+      by_cases hk : g.inQos2.contains i = true
+      · have hk' : (l.st.pushEv (.incoming (.pubrel i r))).incomingPub.contains i = true := by
+          have : i ∈ l.st.incomingPub := (hg.q2 i).mp (by simpa using hk)
+          simpa [State.pushEv] using this
+        rw [handlePubrel_answer _ i hk']
+        simp
+      · simp only [hk, Bool.false_and]
+        cases (handlePubrel (l.st.pushEv (.incoming (.pubrel i r))) i).2 <;> simp
     | _ => cases (sstepObs l.st (.inc _)).outcome <;> rfl
   | out r => cases (sstepObs l.st (.out r)).outcome <;> rfl
   | clean => cases (sstepObs l.st .clean).outcome <;> rfl
@@ -281,34 +271,23 @@ theorem C10_relAnswered_ok {l : LState} {g : Ghost} (hg : GInv0 l g) (op : LOp) 
 
 /-! ### unsolicited acknowledgements -/
 
-theorem count_pubRequests_rot (l : List (Option Pub)) (k : Nat) (x : Request) :
-    (pubRequests (l.drop k ++ l.take k)).count x = (pubRequests l).count x := by
-  have h : pubRequests l = pubRequests (l.take k) ++ pubRequests (l.drop k) := by
-    unfold pubRequests; rw [← List.filterMap_append, List.take_append_drop]
-  rw [h]
-  unfold pubRequests
-  rw [List.filterMap_append, List.count_append, List.count_append, Nat.add_comm]
+theorem count_cleanRequests (s s' : State) (hs : SInv s) (hs' : SInv s') (e1 : s'.outgoingPub = s.outgoingPub)
+    (e2 : s'.outgoingRel = s.outgoingRel) (e3 : s'.collision = s.collision) (x : Request) :
+    (cleanRequests s').count x = (cleanRequests s).count x := by
+  have h1 := (cleanPubs_perm hs').count_eq x
+  have h2 := (cleanPubs_perm hs).count_eq x
+  unfold cleanRequests cleanParked relOnes
+  simp only [List.count_append]
+  rw [h1, h2, e1, e2, e3]
 
-theorem count_cleanRequests (s s' : State) (e1 : s'.outgoingPub = s.outgoingPub) (e2 : s'.outgoingRel = s.outgoingRel)
-    (ev : s'.ver = s.ver) (x : Request) : (cleanRequests s').count x = (cleanRequests s).count x := by
-  unfold cleanRequests cleanPubs relOnes
-  rw [ev, e1, e2]
-  cases s.ver with
-  | v4 => simp only [List.count_append, count_pubRequests_rot]
-  | v5 => rfl
-
-theorem sameMultiset_clean (s s' : State) (e1 : s'.outgoingPub = s.outgoingPub) (e2 : s'.outgoingRel = s.outgoingRel)
-    (ev : s'.ver = s.ver) : sameMultiset (cleanRequests s') (cleanRequests s) = true := by
+theorem sameMultiset_clean (s s' : State) (hs : SInv s) (hs' : SInv s') (e1 : s'.outgoingPub = s.outgoingPub)
+    (e2 : s'.outgoingRel = s.outgoingRel) (e3 : s'.collision = s.collision) :
+    sameMultiset (cleanRequests s') (cleanRequests s) = true := by
   unfold sameMultiset
   simp only [Bool.and_eq_true, beq_iff_eq, List.all_eq_true]
-  refine ⟨by rw [length_cleanRequests, length_cleanRequests, e1, e2], ?_⟩
+  refine ⟨by rw [length_cleanRequests hs, length_cleanRequests hs', e1, e2, e3], ?_⟩
   intro x _
-  exact count_cleanRequests s s' e1 e2 ev x
-
-theorem handlePubcompV4_unsol (s : State) (i : Nat) (h : relContains s i = false) :
-    handlePubcompV4 s i = (s, .err (.unsolicited i)) := by
-  unfold handlePubcompV4
-  rw [if_neg (by rw [h]; simp)]
+  exact count_cleanRequests s s' hs hs' e1 e2 e3 x
 
 theorem slot_empty_of_lookup {U : List (Nat × Nat)} {s : State} (h : UnackedOK U s) (i : Nat)
     (hn : (alookup U i).isNone = true) : s.outgoingPub[i]? = none ∨ s.outgoingPub[i]? = some none := by
@@ -323,20 +302,19 @@ theorem slot_empty_of_lookup {U : List (Nat × Nat)} {s : State} (h : UnackedOK 
     | some x => rw [hs] at h1; simp at h1
 
 /-- C10 clause 5: an acknowledgement the wire never solicited is reported as `Unsolicited` and the
-    observable bookkeeping stays what it was — except (#13, v5) a PUBCOMP on the id of the parked publish -/
-theorem C10_unsolicited_ok {l : LState} {g : Ghost} (h : B1 l g) (op : LOp) (o : Obs) (ho : (lstep l op).2 = some o)
-    (hn : ¬ (l.st.ver = .v5 ∧ pubcompOnCollision l op)) :
+    observable bookkeeping stays what it was -/
+theorem C10_unsolicited_ok {l : LState} {g : Ghost} (h : B1 l g) (op : LOp) (o : Obs) (ho : (lstep l op).2 = some o) :
     C10.unsolicitedErr g o = true ∧ C10.unsolicitedKeeps g o = true := by
   obtain ⟨sop, hl, rfl⟩ := lstep_obs ho
   obtain ⟨s, pd⟩ := l
   have hU := h.g1.unacked
-  have hg := h.b0.g0
-  simp only at hU hg hn
+  have hg := h.g0
+  have hsv := h.inv0.sinv
+  simp only at hU hg hsv
   unfold C10.unsolicitedErr C10.unsolicitedKeeps
   rw [sstepObs_op]
-  have key : ∀ (i : Nat) (s' : State), sop = sop → (sstepObs s sop).outcome = .err (.unsolicited i) →
-      sstepSt s sop = drainEvents s' → s'.outgoingPub = s.outgoingPub → s'.outgoingRel = s.outgoingRel →
-      s'.inflight = s.inflight → s'.collision = s.collision → s'.ver = s.ver →
+  have key : ∀ (i : Nat) (s' : State), (sstepObs s sop).outcome = .err (.unsolicited i) →
+      sstepSt s sop = drainEvents s' → s'.core = s.core →
       ((match (sstepObs s sop).outcome with
         | .panic => true
         | _ => (sstepObs s sop).outcome == .err (.unsolicited i)) = true) ∧
@@ -344,41 +322,36 @@ theorem C10_unsolicited_ok {l : LState} {g : Ghost} (h : B1 l g) (op : LOp) (o :
         | .panic => true
         | _ => (sstepObs s sop).inf == g.pInf && (sstepObs s sop).col == g.pCol &&
                sameMultiset (sstepObs s sop).view g.pView) = true) := by
-    intro i s' _ hout hst e1 e2 e3 e4 ev
+    intro i s' hout hst hc
+    obtain ⟨e1, e2, e3, e4, e5, e6⟩ := core_eqs hc
     obtain ⟨v1, v2, v3⟩ := sstepObs_view s sop
+    have hsv' : SInv (sstepSt s sop) := hsv.sstepSt sop
     constructor
     · rw [hout]; simp
     · rw [hout]
       simp only [Bool.and_eq_true, beq_iff_eq]
-      rw [v1, v2, v3, hst, hg.inf, hg.col, hg.view]
-      refine ⟨⟨by simp [drainEvents, e3], by simp [drainEvents, e4]⟩, ?_⟩
-      exact sameMultiset_clean s (drainEvents s') (by simp [drainEvents, e1]) (by simp [drainEvents, e2]) (by simp [drainEvents, ev])
+      rw [v1, v2, v3, hg.inf, hg.col, hg.view]
+      refine ⟨⟨by rw [hst]; simp [drainEvents, e3], by rw [hst]; simp [drainEvents, e4]⟩, ?_⟩
+      exact sameMultiset_clean s (sstepSt s sop) hsv hsv' (by rw [hst]; simp [drainEvents, e1])
+        (by rw [hst]; simp [drainEvents, e2]) (by rw [hst]; simp [drainEvents, e4])
   cases sop with
   | inc p =>
-    have hs0 := h.b0.inv0.sinv.pushEv (.incoming p)
-    simp only at hs0
+    have hs0 := hsv.pushEv (.incoming p)
     cases p with
     | puback i r =>
       simp only [unsolicitedAck]
       by_cases hno : (alookup g.unacked i).isNone = true
       · simp only [hno, if_true]
         have hslot := slot_empty_of_lookup hU i hno
-        have he := handlePuback_eff hs0 i r
-        have hout : (sstepObs s (.inc (.puback i r))).outcome = (handlePuback (s.pushEv (.incoming (.puback i r))) i r).2 := rfl
-        have hst : sstepSt s (.inc (.puback i r)) = drainEvents (handlePuback (s.pushEv (.incoming (.puback i r))) i r).1 := rfl
-        have hver : (handlePuback (s.pushEv (.incoming (.puback i r))) i r).1.ver = s.ver := (incoming_frame s (.puback i r)).2.1
-        generalize handlePuback (s.pushEv (.incoming (.puback i r))) i r = res at he hout hst hver
+        have he := handlePuback_eff hs0 i
+        have hout : (sstepObs s (.inc (.puback i r))).outcome = (handlePuback (s.pushEv (.incoming (.puback i r))) i).2 := rfl
+        have hst : sstepSt s (.inc (.puback i r)) = drainEvents (handlePuback (s.pushEv (.incoming (.puback i r))) i).1 := rfl
+        generalize handlePuback (s.pushEv (.incoming (.puback i r))) i = res at he hout hst
         have hslot0 : (s.pushEv (.incoming (.puback i r))).outgoingPub[i]? = none ∨
             (s.pushEv (.incoming (.puback i r))).outgoingPub[i]? = some none := hslot
         cases he with
-        | oob s' h1 hc =>
-          obtain ⟨e1, e2, e3, e4, e5⟩ := core_eqs hc
-          exact key i s' rfl hout hst e1 e2 e3 e4 hver
-        | empty s' h1 hc =>
-          exact key i s' rfl hout hst (congrArg Core.pub hc) (congrArg Core.rel hc) (congrArg Core.inf hc)
-            (congrArg Core.col hc) hver
-        | freed s' x h1 _ _ => rcases hslot0 with h' | h' <;> rw [h'] at h1 <;> simp at h1
-        | released s' x c h1 _ _ _ _ => rcases hslot0 with h' | h' <;> rw [h'] at h1 <;> simp at h1
+        | unsol s' h1 hc => exact key i s' hout hst hc
+        | acked x _ h1 _ => rcases hslot0 with h' | h' <;> rw [h'] at h1 <;> simp at h1
       · simp only [hno]
         cases (sstepObs s (.inc (.puback i r))).outcome <;> simp
     | pubrec i r =>
@@ -389,15 +362,12 @@ theorem C10_unsolicited_ok {l : LState} {g : Ghost} (h : B1 l g) (op : LOp) (o :
         have he := handlePubrec_eff hs0 i r
         have hout : (sstepObs s (.inc (.pubrec i r))).outcome = (handlePubrec (s.pushEv (.incoming (.pubrec i r))) i r).2 := rfl
         have hst : sstepSt s (.inc (.pubrec i r)) = drainEvents (handlePubrec (s.pushEv (.incoming (.pubrec i r))) i r).1 := rfl
-        have hver : (handlePubrec (s.pushEv (.incoming (.pubrec i r))) i r).1.ver = s.ver := (incoming_frame s (.pubrec i r)).2.1
-        generalize handlePubrec (s.pushEv (.incoming (.pubrec i r))) i r = res at he hout hst hver
+        generalize handlePubrec (s.pushEv (.incoming (.pubrec i r))) i r = res at he hout hst
         have hslot0 : (s.pushEv (.incoming (.pubrec i r))).outgoingPub[i]? = none ∨
             (s.pushEv (.incoming (.pubrec i r))).outgoingPub[i]? = some none := hslot
         cases he with
-        | unsol s' h1 hc =>
-          obtain ⟨e1, e2, e3, e4, e5⟩ := core_eqs hc
-          exact key i s' rfl hout hst e1 e2 e3 e4 hver
-        | failed s' x h1 _ _ => rcases hslot0 with h' | h' <;> rw [h'] at h1 <;> simp at h1
+        | unsol s' h1 hc => exact key i s' hout hst hc
+        | failed x _ h1 _ _ => rcases hslot0 with h' | h' <;> rw [h'] at h1 <;> simp at h1
         | moved s' x h1 _ _ _ => rcases hslot0 with h' | h' <;> rw [h'] at h1 <;> simp at h1
       · simp only [hno]
         cases (sstepObs s (.inc (.pubrec i r))).outcome <;> simp
@@ -411,33 +381,15 @@ theorem C10_unsolicited_ok {l : LState} {g : Ghost} (h : B1 l g) (op : LOp) (o :
           cases hc : relContains s i with
           | false => rfl
           | true => exact absurd (by simpa using (hg.rels i).mpr hc) hin
-        have hop := lop_inc hl
-        subst hop
-        have hout : (sstepObs s (.inc (.pubcomp i r))).outcome = (handlePubcomp (s.pushEv (.incoming (.pubcomp i r))) i r).2 := rfl
-        have hst : sstepSt s (.inc (.pubcomp i r)) = drainEvents (handlePubcomp (s.pushEv (.incoming (.pubcomp i r))) i r).1 := rfl
-        cases hv : s.ver with
-        | v4 =>
-          have : handlePubcomp (s.pushEv (.incoming (.pubcomp i r))) i r = (s.pushEv (.incoming (.pubcomp i r)), .err (.unsolicited i)) := by
-            unfold handlePubcomp
-            have : (s.pushEv (.incoming (.pubcomp i r))).ver = .v4 := hv
-            rw [this]
-            exact handlePubcompV4_unsol _ i hrel
-          rw [this] at hout hst
-          exact key i _ rfl hout hst rfl rfl rfl rfl rfl
-        | v5 =>
-          have hnc : ∀ c, (s.pushEv (.incoming (.pubcomp i r))).collision = some c → c.pkid ≠ i := by
-            intro c hc hci
-            exact hn ⟨hv, c, hc, hci⟩
-          have he := handlePubcomp_eff hs0 i r hnc
-          have hver : (handlePubcomp (s.pushEv (.incoming (.pubcomp i r))) i r).1.ver = s.ver := (incoming_frame s (.pubcomp i r)).2.1
-          generalize handlePubcomp (s.pushEv (.incoming (.pubcomp i r))) i r = res at he hout hst hver
-          cases he with
-          | unsol s' h1 hc =>
-            obtain ⟨e1, e2, e3, e4, e5⟩ := core_eqs hc
-            exact key i s' rfl hout hst e1 e2 e3 e4 hver
-          | done s' h1 dec hdec hc =>
-            have : relContains (s.pushEv (.incoming (.pubcomp i r))) i = relContains s i := rfl
-            rw [this, hrel] at h1; simp at h1
+        have hout : (sstepObs s (.inc (.pubcomp i r))).outcome = (handlePubcomp (s.pushEv (.incoming (.pubcomp i r))) i).2 := rfl
+        have hst : sstepSt s (.inc (.pubcomp i r)) = drainEvents (handlePubcomp (s.pushEv (.incoming (.pubcomp i r))) i).1 := rfl
+        have he := handlePubcomp_eff hs0 i
+        generalize handlePubcomp (s.pushEv (.incoming (.pubcomp i r))) i = res at he hout hst
+        cases he with
+        | unsol s' h1 hc => exact key i s' hout hst hc
+        | done _ h1 _ =>
+          have : relContains (s.pushEv (.incoming (.pubcomp i r))) i = relContains s i := rfl
+          rw [this, hrel] at h1; simp at h1
     | _ =>
       simp only [unsolicitedAck]
       cases (sstepObs s (.inc _)).outcome <;> simp
